@@ -1,6 +1,6 @@
 (** C18 - lemmas about the finder models. *)
-From Coq Require Import Reals Lra Psatz List Bool QArith Qreals Lia.
-From CB Require Import Base.Vec3 Model.C18_Finder.
+From Coq Require Import Reals Lra Psatz List Bool ZArith Lia.
+From CB Require Import Base.Vec3 Model.C18_Finder Model.C18_RoundSpec.
 Import ListNotations.
 
 (** * Real part *)
@@ -146,27 +146,39 @@ Proof.
   - destruct (Rlt_dec (norm a) r) as [|Hge]; [assumption|]. exfalso. nra.
 Qed.
 
-(** * Rational part *)
-Open Scope Q_scope.
-
-Lemma Qltb_true_iff a b : Qltb a b = true <-> a < b.
+(** the final forms used by Properties/C18.v *)
+Lemma norm_pos_nonzero n : n <> vzero -> 0 < norm n.
 Proof.
-  unfold Qltb. rewrite negb_true_iff. split; intros H.
-  - apply Qnot_le_lt. intros Hle. apply Qle_bool_iff in Hle. congruence.
-  - destruct (Qle_bool b a) eqn:E; [|reflexivity]. apply Qle_bool_iff in E. exfalso.
-    apply (Qlt_not_le _ _ H E).
+  intros H. apply norm_pos_of_norm2. destruct n as [[x y] z]. vec_simpl.
+  destruct (Req_dec x 0) as [Hx|Hx]; [|nra]. destruct (Req_dec y 0) as [Hy|Hy]; [|nra].
+  destruct (Req_dec z 0) as [Hz|Hz]; [|nra]. exfalso. apply H. subst. reflexivity.
 Qed.
 
-Lemma found_from_points_spec tol points v :
-  found_from_points tol points v = true <-> exists p, In p points /\ qdist2 v p < tol * tol.
+Lemma find_on_plane_exact tol vs o n v : n <> vzero ->
+  (In v (find_on_plane tol vs o n) <-> In v vs /\ Rabs (dot (vsub v o) n) / norm n < tol).
+Proof. intros Hn. exact (find_on_plane_spec tol vs o n v (norm_pos_nonzero n Hn)). Qed.
+
+Lemma find_on_plane_invariant tol vs o o' n v k : n <> vzero -> k <> 0 -> dot (vsub o' o) n = 0 ->
+  (In v (find_on_plane tol vs o' (vscale k n)) <-> In v (find_on_plane tol vs o n)).
 Proof.
-  unfold found_from_points. rewrite existsb_exists. unfold qnear.
-  split; intros [p [Hp H]]; exists p; (split; [exact Hp|]); apply Qltb_true_iff; exact H.
+  intros Hn Hk Ho. pose proof (norm_pos_nonzero n Hn) as Hp.
+  rewrite (find_on_plane_scale tol vs o' n k v Hk Hp).
+  rewrite !find_on_plane_spec by exact Hp. rewrite (plane_dist_origin o o' n v Ho). reflexivity.
 Qed.
 
-Lemma found_from_faces_spec tol faces v :
-  found_from_faces tol faces v = true <->
-  exists f p, In f faces /\ In p f /\ qdist2 v p < tol * tol.
+(** * Integer part *)
+Open Scope Z_scope.
+
+Lemma found_from_points_spec T points v :
+  found_from_points T points v = true <-> exists p, In p points /\ zdist2 v p < T * T.
+Proof.
+  unfold found_from_points. rewrite existsb_exists. unfold znear.
+  split; intros [p [Hp H]]; exists p; (split; [exact Hp|]); apply Z.ltb_lt; exact H.
+Qed.
+
+Lemma found_from_faces_spec T faces v :
+  found_from_faces T faces v = true <->
+  exists f p, In f faces /\ In p f /\ zdist2 v p < T * T.
 Proof.
   unfold found_from_faces. rewrite existsb_exists. split.
   - intros [f [Hf H]]. apply found_from_points_spec in H. destruct H as [p [Hp H]]. exists f, p. auto.
@@ -199,21 +211,21 @@ Proof.
 Qed.
 
 (** exactness of the model of the round finder: index [i] is returned iff vertex [i] exists and is
-    within [tol] of a point of a face of the given group *)
-Lemma find_core_spec tol vs core i :
-  In i (find_core tol vs core) <->
-  exists v, nth_error vs i = Some v /\ exists f p, In f core /\ In p f /\ qdist2 v p < tol * tol.
+    within [T] of a point of a face of the given group *)
+Lemma find_core_spec T vs core i :
+  In i (find_core T vs core) <->
+  exists v, nth_error vs i = Some v /\ exists f p, In f core /\ In p f /\ zdist2 v p < T * T.
 Proof.
   unfold find_core. rewrite select_idx_spec. split.
   - intros [x [_ [Hn Hf]]]. rewrite Nat.sub_0_r in Hn. exists x. split; [exact Hn|]. apply found_from_faces_spec. exact Hf.
   - intros [v [Hn Hf]]. exists v. rewrite Nat.sub_0_r. repeat split; [lia|exact Hn|]. apply found_from_faces_spec. exact Hf.
 Qed.
 
-Lemma find_shell_spec tol vs core shell i :
-  In i (find_shell tol vs core shell) <->
+Lemma find_shell_spec T vs core shell i :
+  In i (find_shell T vs core shell) <->
   exists v, nth_error vs i = Some v
-    /\ (exists f p, In f shell /\ In p f /\ qdist2 v p < tol * tol)
-    /\ ~ (exists f p, In f core /\ In p f /\ qdist2 v p < tol * tol).
+    /\ (exists f p, In f shell /\ In p f /\ zdist2 v p < T * T)
+    /\ ~ (exists f p, In f core /\ In p f /\ zdist2 v p < T * T).
 Proof.
   unfold find_shell. rewrite select_idx_spec. split.
   - intros [x [_ [Hn Hf]]]. rewrite Nat.sub_0_r in Hn. exists x. split; [exact Hn|].
@@ -223,22 +235,129 @@ Proof.
   - intros [v [Hn [H1 H2]]]. exists v. rewrite Nat.sub_0_r. repeat split; [lia|exact Hn|].
     apply andb_true_iff. split.
     + apply found_from_faces_spec. exact H1.
-    + apply negb_true_iff. destruct (found_from_faces tol core v) eqn:E; [|reflexivity].
+    + apply negb_true_iff. destruct (found_from_faces T core v) eqn:E; [|reflexivity].
       exfalso. apply H2. apply found_from_faces_spec. exact E.
 Qed.
 
 (** shell and core are disjoint, and the shell result is the set difference *)
-Lemma find_shell_core_disjoint tol vs core shell i :
-  In i (find_shell tol vs core shell) -> ~ In i (find_core tol vs core).
+Lemma find_shell_core_disjoint T vs core shell i :
+  In i (find_shell T vs core shell) -> ~ In i (find_core T vs core).
 Proof.
   rewrite find_shell_spec, find_core_spec. intros [v [Hn [_ H2]]] [v' [Hn' H]]. rewrite Hn in Hn'.
   inversion Hn'. subst. contradiction.
 Qed.
 
-Lemma find_shell_is_difference tol vs core shell i :
-  In i (find_shell tol vs core shell) <-> In i (find_core tol vs shell) /\ ~ In i (find_core tol vs core).
+Lemma find_shell_is_difference T vs core shell i :
+  In i (find_shell T vs core shell) <-> In i (find_core T vs shell) /\ ~ In i (find_core T vs core).
 Proof.
   rewrite find_shell_spec, !find_core_spec. split.
   - intros [v [Hn [H1 H2]]]. split; [exists v; auto|]. intros [v' [Hn' H]]. rewrite Hn in Hn'. inversion Hn'. subst. contradiction.
   - intros [[v [Hn H1]] H2]. exists v. repeat split; auto. intros H. apply H2. exists v. auto.
+Qed.
+
+Lemma round_model_exact T vs core shell i :
+  (In i (find_core T vs core) <->
+     exists v, nth_error vs i = Some v /\ exists f p, In f core /\ In p f /\ zdist2 v p < T * T)
+  /\ (In i (find_shell T vs core shell) <-> In i (find_core T vs shell) /\ ~ In i (find_core T vs core)).
+Proof. split; [apply find_core_spec|apply find_shell_is_difference]. Qed.
+
+(** ** the integer comparison is the comparison of real distances: with the unit [u > 0] and
+    [TOL = T u > 0], [|v - p|^2 < T^2] on the mantissas iff [dist v p < TOL] on the points *)
+Lemma norm2_zR u a b : norm2 (vsub (zR u a) (zR u b)) = (IZR (zdist2 a b) * (u * u))%R.
+Proof.
+  destruct a as [[a1 a2] a3], b as [[b1 b2] b3]. unfold zdist2, zsub, zdot, zR.
+  rewrite !plus_IZR, !mult_IZR, !minus_IZR. vec_simpl. ring.
+Qed.
+
+Lemma znear_real u T p v : (0 < u)%R -> 0 < T ->
+  (zdist2 v p < T * T <-> (dist (zR u v) (zR u p) < IZR T * u)%R).
+Proof.
+  intros Hu HT. rewrite <- norm_vsub_dist.
+  assert (HTu : (0 < IZR T * u)%R) by (apply Rmult_lt_0_compat; [apply IZR_lt; exact HT|exact Hu]).
+  rewrite (norm_lt_iff_sq _ _ HTu), norm2_zR.
+  replace (IZR T * u * (IZR T * u))%R with (IZR (T * T) * (u * u))%R by (rewrite mult_IZR; ring).
+  assert (Huu : (0 < u * u)%R) by nra. split; intros H.
+  - apply Rmult_lt_compat_r; [exact Huu|]. apply IZR_lt. exact H.
+  - apply lt_IZR. apply Rmult_lt_reg_r with (u * u)%R; assumption.
+Qed.
+
+(** ** a cheaper evaluator: a coordinate difference of at least [T] decides "not near" without any
+    multiplication.  It is equal to the model, so the finite checks may use it. *)
+Definition znear_fast (T : Z) (p v : zvec) : bool :=
+  let '(a, b, c) := zsub v p in
+  if (T <=? Z.abs a) || (T <=? Z.abs b) || (T <=? Z.abs c) then false else znear T p v.
+
+Lemma znear_fast_eq T p v : 0 < T -> znear_fast T p v = znear T p v.
+Proof.
+  intros HT. unfold znear_fast, znear, zdist2. destruct (zsub v p) as [[a b] c]. unfold zdot.
+  destruct ((T <=? Z.abs a) || (T <=? Z.abs b) || (T <=? Z.abs c)) eqn:E; [|reflexivity].
+  symmetry. apply Z.ltb_ge.
+  assert (Ha : 0 <= a * a) by nia. assert (Hb : 0 <= b * b) by nia. assert (Hc : 0 <= c * c) by nia.
+  apply orb_true_iff in E. destruct E as [E|E]; [apply orb_true_iff in E; destruct E as [E|E]|];
+    apply Z.leb_le in E; nia.
+Qed.
+
+Definition found_from_faces_fast (T : Z) (faces : list (list zvec)) (v : zvec) : bool :=
+  existsb (fun f => existsb (fun p => znear_fast T p v) f) faces.
+
+Lemma existsb_ext {A} (f g : A -> bool) l : (forall x, f x = g x) -> existsb f l = existsb g l.
+Proof. intros H. induction l as [|x l IH]; simpl; [reflexivity|]. rewrite H, IH. reflexivity. Qed.
+
+Lemma select_idx_ext {A} (f g : A -> bool) l : (forall x, f x = g x) -> forall k, select_idx f l k = select_idx g l k.
+Proof. intros H. induction l as [|x l IH]; intros k; simpl; [reflexivity|]. rewrite H, !IH. reflexivity. Qed.
+
+Lemma found_from_faces_fast_eq T faces v : 0 < T -> found_from_faces_fast T faces v = found_from_faces T faces v.
+Proof.
+  intros HT. unfold found_from_faces_fast, found_from_faces, found_from_points.
+  apply existsb_ext. intros f. apply existsb_ext. intros p. apply znear_fast_eq. exact HT.
+Qed.
+
+Definition rc_model_ok_fast (c : round_case) : bool :=
+  (0 <? rc_tol c)
+  && nat_list_eqb (select_idx (found_from_faces_fast (rc_tol c) (rc_core c)) (rc_verts c) 0) (rc_found_core c)
+  && nat_list_eqb (select_idx (fun v => found_from_faces_fast (rc_tol c) (rc_shell c) v
+                                        && negb (found_from_faces_fast (rc_tol c) (rc_core c) v)) (rc_verts c) 0)
+                  (rc_found_shell c).
+
+Lemma rc_model_ok_fast_sound c : rc_model_ok_fast c = true -> 0 < rc_tol c /\ rc_model_ok c = true.
+Proof.
+  unfold rc_model_ok_fast, rc_model_ok, find_core, find_shell. intros H.
+  apply andb_true_iff in H. destruct H as [H H2]. apply andb_true_iff in H. destruct H as [HT H1].
+  apply Z.ltb_lt in HT. split; [exact HT|].
+  rewrite (select_idx_ext _ (found_from_faces_fast (rc_tol c) (rc_core c))), H1
+    by (intros x; symmetry; apply found_from_faces_fast_eq; exact HT).
+  rewrite (select_idx_ext _ (fun v => found_from_faces_fast (rc_tol c) (rc_shell c) v
+                                      && negb (found_from_faces_fast (rc_tol c) (rc_core c) v))), H2
+    by (intros x; rewrite !found_from_faces_fast_eq by exact HT; reflexivity).
+  reflexivity.
+Qed.
+
+Lemma nat_list_eqb_eq a : forall b, nat_list_eqb a b = true -> a = b.
+Proof.
+  unfold nat_list_eqb. induction a as [|x a IH]; intros [|y b] H; simpl in *; try reflexivity; try discriminate.
+  apply andb_true_iff in H. destruct H as [Hl H]. apply andb_true_iff in H. destruct H as [Hx H].
+  apply Nat.eqb_eq in Hx. subst. f_equal. apply IH. rewrite Hl. exact H.
+Qed.
+
+(** everything one table row is checked for, as one boolean, and what it means *)
+Definition rc_row_ok (tol_m tol_e : Z) (c : round_case) : bool :=
+  rc_model_ok_fast c && rc_spec_ok c && (3 <=? length (rc_found_shell c))%nat
+  && (tol_e <=? rc_exp c) && (rc_tol c =? tol_m * 2 ^ (rc_exp c - tol_e)).
+
+Lemma rc_row_ok_sound tol_m tol_e c : rc_row_ok tol_m tol_e c = true ->
+  find_core (rc_tol c) (rc_verts c) (rc_core c) = rc_found_core c
+  /\ find_shell (rc_tol c) (rc_verts c) (rc_core c) (rc_shell c) = rc_found_shell c
+  /\ select_idx (is_inner (rc_center c) (rc_normal c) (rc_radius c)) (rc_verts c) 0 = rc_found_core c
+  /\ select_idx (is_rim (rc_center c) (rc_normal c) (rc_radius c)) (rc_verts c) 0 = rc_found_shell c
+  /\ (3 <= length (rc_found_shell c))%nat
+  /\ 0 < rc_tol c /\ tol_e <= rc_exp c /\ rc_tol c = tol_m * 2 ^ (rc_exp c - tol_e).
+Proof.
+  unfold rc_row_ok. intros H.
+  apply andb_true_iff in H. destruct H as [H Ht]. apply andb_true_iff in H. destruct H as [H He].
+  apply andb_true_iff in H. destruct H as [H Hn]. apply andb_true_iff in H. destruct H as [Hm Hs].
+  apply rc_model_ok_fast_sound in Hm. destruct Hm as [HT Hm].
+  unfold rc_model_ok in Hm. apply andb_true_iff in Hm. destruct Hm as [Hm1 Hm2].
+  unfold rc_spec_ok in Hs. apply andb_true_iff in Hs. destruct Hs as [Hs1 Hs2].
+  apply nat_list_eqb_eq in Hm1, Hm2, Hs1, Hs2. apply Nat.leb_le in Hn. apply Z.leb_le in He. apply Z.eqb_eq in Ht.
+  repeat split; assumption.
 Qed.
